@@ -118,7 +118,7 @@ class ScipyOptimizeDriver(Driver):
     _lincongrad_cache : np.ndarray
         Pre-calculated gradients of linear constraints.
     _desvar_array_cache : np.ndarray
-        Cached array for setting design variables.
+        Design point (in optimizer space) at which _con_cache and _grad_cache were evaluated.
     """
 
     def __init__(self, **kwargs):
@@ -538,6 +538,13 @@ class ScipyOptimizeDriver(Driver):
 
         self._scipy_optimize_result = result
 
+        # Leave the model at the design the optimizer returned; the last point an optimizer
+        # evaluates is not necessarily that design.
+        if hasattr(result, 'x') and not np.array_equal(result.x, self._desvar_array_cache):
+            self._objfunc(np.asarray(result.x, dtype=float))
+            if self._exc_info is not None:
+                self._reraise()
+
         if hasattr(result, 'success'):
             self.fail = not result.success
             if self.fail:
@@ -602,6 +609,11 @@ class ScipyOptimizeDriver(Driver):
 
             self._con_cache = self.get_constraint_values()
 
+            # The cached constraint values belong to this design point; cached gradients
+            # of an earlier point are stale.
+            self._desvar_array_cache = np.array(x_new, dtype=float)
+            self._grad_cache = None
+
         except Exception:
             if self._exc_info is None:  # only record the first one
                 self._exc_info = sys.exc_info()
@@ -632,8 +644,11 @@ class ScipyOptimizeDriver(Driver):
         float
             Value of the constraint function.
         """
-        if self.options['optimizer'] in ['differential_evolution', 'COBYQA']:
-            # the DE opt will not have called this, so we do it here to update DV/resp values
+        if self.options['optimizer'] in ['differential_evolution', 'COBYQA'] or \
+                not np.array_equal(x_new, self._desvar_array_cache):
+            # the DE opt will not have called this, and other optimizers (trust-constr) may ask
+            # for a constraint before the objective at a new point, so we do it here to update
+            # DV/resp values
             self._objfunc(x_new)
 
         return self._con_cache[name][idx]
@@ -704,6 +719,10 @@ class ScipyOptimizeDriver(Driver):
         model = prob.model
 
         try:
+            if not np.array_equal(x_new, self._desvar_array_cache):
+                # the model is not at this design point yet
+                self._objfunc(x_new)
+
             grad = self._compute_totals(of=self._obj_and_nlcons, wrt=self._dvlist,
                                         return_format=self._total_jac_format)
             self._grad_cache = grad
@@ -757,9 +776,11 @@ class ScipyOptimizeDriver(Driver):
         if meta['linear']:
             grad = self._lincongrad_cache
         else:
-            if self._grad_cache is None:
-                # _gradfunc has not been called, meaning gradients are not
-                # used for the objective but are needed for the constraints
+            if self._grad_cache is None or \
+                    not np.array_equal(x_new, self._desvar_array_cache):
+                # _gradfunc has not been called at this design point (gradients are not used
+                # for the objective but are needed for the constraints, or the constraint
+                # jacobian is requested first)
                 self._gradfunc(x_new)
             grad = self._grad_cache
 
